@@ -58,6 +58,7 @@ class Engine:
         self.overlay: dict[tuple[int, Any], Any] = {}
         self._keep: list[Any] = []  # keeps live objects referenced by overlay keys alive
         self.run_counter = 0
+        self.concrete_mode = False
         self.no_fork = 0
         self.last_dropped = 0
         self.active_runs: list[int] = [0]
@@ -231,6 +232,9 @@ class Engine:
         """Explore `thunk` exhaustively under the current pc, merge the outcomes, and continue the current
         path with the merged result (forking only over outcome classes that cannot be merged).
         `key` is a structural memo key, `ident` an identity key used when outcomes alias pre-existing objects."""
+        if self.concrete_mode:
+            # all values are concrete: no forks, no merging -- run the callee directly
+            return thunk()
         mkey = ikey = None
         if key is not None:
             try:
